@@ -37,6 +37,8 @@ type ProcOut struct {
 	Notes         []string `json:"notes,omitempty"`
 }
 
+var errEnvelope = errors.New("outside the measurable envelope")
+
 const procSlackMs = 800 // process teardown on top of the in-process slack
 
 var (
@@ -63,7 +65,9 @@ func buildFabio() (string, error) {
 		}
 		vd := verifDir()
 		os.MkdirAll(filepath.Join(vd, ".work"), 0o755)
-		lock, err := os.OpenFile(filepath.Join(vd, ".work", "build.lock"), os.O_CREATE|os.O_RDWR, 0o644)
+		// own lock: bin/fabio-c18 is written by nobody else, the go build cache is safe for concurrent use, and
+		// the shared build.lock can be queued for many minutes while this stream's timeout is running
+		lock, err := os.OpenFile(filepath.Join(vd, ".work", "c18-fabio.lock"), os.O_CREATE|os.O_RDWR, 0o644)
 		if err != nil {
 			fabioErr = err
 			return
@@ -99,10 +103,10 @@ func waitUp(addr string, d time.Duration) bool {
 
 func runProcess(in *ProcIn) (*ProcOut, error) {
 	if in.Wait < 600 || in.Wait > 5000 || in.Grace < 300 || in.Grace > 3000 {
-		return nil, errors.New("wait/grace outside the measurable envelope")
+		return nil, fmt.Errorf("%w: wait/grace", errEnvelope)
 	}
 	if in.Dynamic && (in.Refresh < 50 || in.Refresh*3 > in.Wait) {
-		return nil, errors.New("refresh must be ≥ 50 ms and at most a third of the wait")
+		return nil, fmt.Errorf("%w: refresh must be ≥ 50 ms and at most a third of the wait", errEnvelope)
 	}
 	bin, err := buildFabio()
 	if err != nil {
@@ -285,6 +289,10 @@ func init() {
 				return nil, err
 			}
 			out, err := runProcess(&in)
+			for try := 0; err != nil && !errors.Is(err, errEnvelope) && try < 3; try++ { // set-up trouble, not an observation
+				time.Sleep(3 * time.Second)
+				out, err = runProcess(&in)
+			}
 			if err != nil {
 				return nil, err
 			}
